@@ -12,1074 +12,1121 @@ Definition show_fres (r : fres) : string :=
   end.
 Definition check (rs : list rune) : string := digest (show_fres (format_res rs)).
 Definition full (rs : list rune) : string := show_fres (format_res rs).
-Eval vm_compute in ("<<<M1960>>>" ++ check (runes_of_ascii "//	t
-
-packet 
-MetaDataX
-
-{@leftPad(  )
-repeat
-
-    float64 
-asx 
-, } MetaData 
-Foo
-{  // a // b
-	char[
-65535
-	]Pad , }
-    packet body  // 50% %s
+Eval vm_compute in ("<<<M218>>>" ++ check (runes_of_ascii "packet rootA
+    {Header { repeat i64 int ,
+char[]x	@lengthOf(
+metadata
+    ) , }
+,@leftPad (// a // b
+'\x00'
+    /// triple
+    )a1 string_ , @tag( 0 ) char[]
+    pack @lengthOf( uint8x
+), @calculatedFrom(""a	b"" )
+// " ++ [128512]%N ++ runes_of_ascii " emoji
+//x
+f64
+string_
+    , char[] packetx ,
+}
+packet  repeatCount	{@rightPad(	)
+falsey A
+    `" ++ [233]%N ++ runes_of_ascii "`,// packet A { u8 x, }
+repeat _x {
+    u8x
+, f32a {char[ 7 ] Header
+    // `tick` ""quote"" 'q'
+    @lengthOf( i8i8 )
+`" ++ [233]%N ++ runes_of_ascii "` ,
+    // trailing space 
+    } , Header Pad , u8x Logon
+`100% of %d`, }  , repeat string o , int16 zchar@calculatedFrom(// a // b
+""CRC32"" )	`two words`, @tag( 4294967296 )chars { Pad
+packetx`two words` , uint32 stringy@lengthOf( x_y_z ) ``	,	}
+    ,	repeat Header{
+repeat char[ // c
+4294967296
+] Header ,	trueish As , //x
+body ,
+u8 msg_type `tab	here` , } , // a // b
+f64
+    u8x
+`two words`,  repeat len
+    lengthOf,
+    } options/// triple
 {
-
-    match 
-asx	as
-    charz
-{  // `tick` ""quote"" 'q'
-	  10
-: u8x	,
-
-    ""it's""
-    : 
-leftPad
-
-    , 3
-: metadata 
-        // trailing space 
+rootA
+=
+'0' i64_
+    =/// triple
+zchar[ 0123456789] ; } packet msg_type
+    { x @lengthOf( uint8x) ,@tag( 00 ) char[] calculatedFrom	,
+    repeat Z9_
+{ repeat float64 Pad
     //x
-  	, ""it's""
-    : x, [ 65535 ,  """ ++ [233]%N ++ runes_of_ascii "t" ++ [233]%N ++ runes_of_ascii """
-]
-	:
-    u128  ,
-    10
-
-:	// @lengthOf(
-
-len
-	},repeat
-f32  rootA
-	``
-
-    , // 50% %s
-  @leftPad( 
-
-//
-  ' '
-    )
-
-repeat
-
-    i64  BodyLength // c
-  , repeatCount
-
-    {
-i16  crc
-@lengthOf(	u128
-
-)  ,
-    }
+    , } ,}// c
+root
+    packet calculatedFrom{ zchar[
+1
+    ]
+    f32a, repeat
+    uint8x {
+match crc  as u8x{0 : zchar , [
+65535 ,
+0
+, ""CRC32""  ,	4294967296 ,
+42, ""\" ++ [233]%N ++ runes_of_ascii """] :chars, ""`tick`"" :
+pack , 255
+// " ++ [128512]%N ++ runes_of_ascii " emoji
+//	t
+:Pad, }
     ,
-u16  // " ++ [27880; 37322]%N ++ runes_of_ascii "
-	  u  @lengthOf( f32a
-
-    ) 
-`// not a comment` , // trailing space 
-  len
-{
-
-match
-    Logon
-as // @lengthOf(
-      Foo
-	{""" ++ [233]%N ++ runes_of_ascii "t" ++ [233]%N ++ runes_of_ascii """
-	: stringy
-
-    ,
-10 :msg_type ,  //	t
-	[
-""\n""
-,""`tick`""
+    string a1 `it's`
 ,
-""abc""
+tag
+{ a1
+    , //
+match BodyLength as //x
+options1
+{
+    ""packet""
+: Z9_ } , MetaDataX@calculatedFrom( """ ++ [28040; 24687]%N ++ runes_of_ascii """
+    ) // packet A { u8 x, }
+,
+tag
+Pad
+// a // b
+// 50% %s
+, },
+    }  ,
+@tag(
+255
+)zchar[0123456789
+    ]o //x
+,  int16 Logon , @calculatedFrom( """ ++ [128512]%N ++ runes_of_ascii """
+)
+char[ 0 ] metadata
+`it's`
+    , }
+")).
+Eval vm_compute in ("<<<M1943>>>" ++ check (runes_of_ascii "packet packetx {
+}
 
-,""""  ,  007  ,  1 
-,	""a\""b""
-	]  :
-i64_ 	 // packet A { u8 x, }
+root packet repeatCount {
+    int16 rootA @lengthOf(len) ``,
+    i32 A @calculatedFrom(""a\\""),
+    i16 asx @calculatedFrom(""x y""),
+    repeat char[] x,
+}
 
-  ,255  
-  //x
-    : T
-    ,
-
-""{,}"":
-f32a
+root packet lengthOf {
+    @leftPad('0')
+    @calculatedFrom(""\" ++ [233]%N ++ runes_of_ascii """)
+    @lengthOf(Z9_)
+    repeat char[] As,
+    @rightPad(' ')
+    repeat zchar,
+    match a1 as pack {
+        [3] : lengthOf,
+        [007, ""x y""] : A,
     },
+    repeat chars {
+        char[4294967296] body,
+        body @lengthOf(pack),
+        string Z9_,
+    },
+    @leftPad(' ')
+    zchar[255] Header,
+    @tag(0)
+    repeat char[00] roots,
+    match crc as body {
+        ""`tick`"" : a1,
+    },
+    @tag(1)
+    char[] rootA @calculatedFrom(""" ++ [233]%N ++ runes_of_ascii "t" ++ [233]%N ++ runes_of_ascii """),
+}
 
-string
+packet pack {
+    match Packet as repeatCount {
+        //x
+        ""a	b"" : pack,
+    },
+    packetx packetx,//	t
+    match o as Packet {
+        // a // b
+        0123456789 : lengthOf,
+        // `tick` ""quote"" 'q'
+        ""CRC32"" : i64_,
+        1 : asx,
+        ""\" ++ [233]%N ++ runes_of_ascii """ : o,
+        ""a	b"" : u128,
+        ""// no comment"" : Packet,
+        // `tick` ""quote"" 'q'
+    },
+    @leftPad('0')
+    @calculatedFrom(""" ++ [128512]%N ++ runes_of_ascii """)
+    A @calculatedFrom(""{,}"") `u8 x,`,
+    @tag(255)
+    float32 MetaDataX,
+    char[] u128 @lengthOf(zchar),
+    match x as _x {
+        00 : A,
+    },
+    //	t
+}")).
+Eval vm_compute in ("<<<M1538>>>" ++ check (runes_of_ascii "root
+packet 
+len
 
-    tag @lengthOf(Z9_ ), 
-  // a // b
-u32 charz
-    `crlf
-line`	,
-u8x @lengthOf( 	 /// triple
-      rootA
-    )
-,}, float
+{	match x
+as
+	metadata  // " ++ [27880; 37322]%N ++ runes_of_ascii "
+	{
+
+    [
+    1  
+  // packet A { u8 x, }
+    	//x
 	,
-int8  repeatCount
-@lengthOf(f32a
+    0
+,""""	,""a	b"" 
+, 00
+
+]
+    : pack
+	,[""// no comment"",
+""x y""
+,
+""" ++ [233]%N ++ runes_of_ascii "t" ++ [233]%N ++ runes_of_ascii """
+
+    ]	:  Packet//
+		,  }  ,	repeat
+    lengthOf
+u128 ,
+
+@calculatedFrom( 
+// " ++ [128512]%N ++ runes_of_ascii " emoji
+  	""it's""	)  @lengthOf(calculatedFrom
+    // trailing space 
+  // 50% %s
+      )
+	@lengthOf( u
 
 )
+	metadata
+{
+	int8
+lengthOf
 `crlf
-line`
+line`,
+    } ,
+@tag( // trailing space 
+4294967296
+
+)calculatedFrom	{  f32
+    i64_ 	 // packet A { u8 x, }
+`" ++ [233]%N ++ runes_of_ascii "` 
+,
+}
+    , 
+@lengthOf(
+
+BodyLength
+
+    )repeat 	 //x
+	char[
+
+65535] float 
+	    // `tick` ""quote"" 'q'
+	// c
+      ,
+@calculatedFrom(  ""\" ++ [233]%N ++ runes_of_ascii """  ) i64_{match
+    stringy
+as
+
+    _x
+{ 	 //	t
+		[
+
+    4294967296 ,
+3
+	] : i8i8 , [
+""a\""b""
+
+    ]	:  x_y_z
+	,
+3
+	:len	,  }	, }
+    ,
+@tag(	// trailing space 
+0
+
+    )
+
+zchar[
+
+7]
+    x_y_z	, @lengthOf(
+Header)repeat
+    // 50% %s
+    /// triple
+  u64  As`
+`
+,// " ++ [27880; 37322]%N ++ runes_of_ascii "
+    @rightPad( )/// triple
+	@rightPad 
+('\x00'
+) u16
+Header
+    `{ , }`
+,} ")).
+Eval vm_compute in ("<<<M22>>>" ++ check (runes_of_ascii "root packet packetx
+{	char[] leftPad
+@lengthOf( chars )
+, @lengthOf(
+u
+    )repeat uint8 float , A
+,	zchar[ 4294967296 ]string_ @lengthOf( float ), match
+rootA
+as As {// " ++ [128512]%N ++ runes_of_ascii " emoji
+[
+    ""it's"", 255
+    ,// 50% %s
+0123456789
+,""" ++ [233]%N ++ runes_of_ascii "t" ++ [233]%N ++ runes_of_ascii """, ""{,}"" , ""abc"" ,
+""" ++ [233]%N ++ runes_of_ascii "t" ++ [233]%N ++ runes_of_ascii """
+]
+    :int , 4294967296
+:
+    tag// trailing space 
+, }, @calculatedFrom(
+    ""\" ++ [233]%N ++ runes_of_ascii """
+    // packet A { u8 x, }
+    ) @lengthOf( tag ) match leftPad as u {[ ""it's""
+    ] : string_,
+} , @calculatedFrom( ""\n""
+// 50% %s
+// packet A { u8 x, }
+) @lengthOf(calculatedFrom)
+    // 50% %s
+    @lengthOf(
+// trailing space 
+// trailing space 
+MetaDataX)charz, @tag( 65535 ) match f32a as rootA
+    { [
+    """ ++ [128512]%N ++ runes_of_ascii """ ] :
+falsey 0 :// packet A { u8 x, }
+MetaDataX, // @lengthOf(
+}
+    ,
+char[
+    007 ] i8i8 @calculatedFrom( // c
+""" ++ [233]%N ++ runes_of_ascii "t" ++ [233]%N ++ runes_of_ascii """
+// trailing space 
+// " ++ [128512]%N ++ runes_of_ascii " emoji
+) `
+` ,
+} options{trueish
+    /// triple
+    = // c
+true ; rootA	= ""\" ++ [233]%N ++ runes_of_ascii """; trueish
+= false ; } // a // b")).
+Eval vm_compute in ("<<<M260>>>" ++ check (runes_of_ascii "
+packet
+pack { char[] falsey ,  @lengthOf(
+zchar) @rightPad	(
+)
+    float
+    roots,	@calculatedFrom(""// no comment""
+    ) i64 u8x ,
+@lengthOf(
+lengthOf)@leftPad	(
+    )
+    @tag(
+    4294967296	) Packet, match uint8x as Foo // `tick` ""quote"" 'q'
+{
+    ""abc""
+: string_ , } ,
+Logon{repeat//
+char[ 65535 ]matchKey `100% of %d`
+,
+zchar[
+    0123456789] leftPad @calculatedFrom( ""// no comment"" ) ,string // packet A { u8 x, }
+len, }, // @lengthOf(
+u64 body  @lengthOf( string_ )
+    ,
+    // c
+    Z9_
+charz `tab	here` ,
+    //x
+    }MetaData u
+    { lengthOf chars `" ++ [28040; 24687; 31867; 22411]%N ++ runes_of_ascii "` ,  char[ // 50% %s
+007 ] options1`100% of %d`, body u8x , float32/// triple
+body
+`u8 x,` , } packet //	t
+T // c
+{}
+    packet
+    i8i8
+{
+    string
+    packetx, tag
+falsey,} 	 ")).
+Eval vm_compute in ("<<<M1576>>>" ++ check (runes_of_ascii "// top
+    packet // c0a
+    // c0b
+  	u128 
+
+// c1
+{// c2a
+	  // c2b
+u8
+    // c3
+  a
+,
+
+// c5
+}	// c6a
+    // c6b
+root	// c7a
+	// c7b
+    packet // c8a
+
+	// c8b
+      Msg // c9
+
+{ 	 // c10a
+// c10b
+  u8 
+  // c11
+    k 	 // c12a
+// c12b
+	,  u24// c14a
+    // c14b
+
+	{  // c15
+	u8	// c16a
+
+	// c16b
+  Hi 
+
+// c17
+      ,u16 	 // c19
+Lo
+	,// c21
+}, 	 // c23a
+  // c23b
+  repeat 
+	    // c24
+  	i24
+// c25
+    {// c26
+		u32  
+      // c27
+
+q 
+// c28
+  , 	 // c29
+
+}	// c30
+,	// c31
+u128	// c32
+  ,// c33
+  	u16  // c34a
+    // c34b
+	float32x
+    ,	// c36
+  string// c37a
+		// c37b
+s // c38a
+	// c38b
+  	,	// c39a
+  // c39b
+    }// c40a
+	// c40b
+")).
+Eval vm_compute in ("<<<M1784>>>" ++ check (runes_of_ascii "
+// top
+  	packet	// c0a
+    // c0b
+    _x // c1
+
+{ 
+// c2
+
+  match// c3a
+  // c3b
+  Foo // c4
+    as	// c5
+
+	Z9_ 
+	    // c6
+		{""a	b"" 
+	// c8
+:  // c9
+Pad  // c10a
+
+  // c10b
+,
+}
+
+    // c12
+  ,// c13a
+	  // c13b
+repeat  // c14
+    x// c15
+    `// not a comment` 
+    // c16
+  	,
+    @rightPad  // c18
+
+	( 	 // c19a
+      // c19b
+' '
+
+)
+    // c21
+@calculatedFrom(	// c22
+	""a\\""  // c23a
+// c23b
+) 
+    // c24
+	metadata  // c25
+  	MetaDataX // c26
+	,
+@tag(
+	    // c28
+  0  // c29a
+	  // c29b
+    	) Logon
+        // c31
+    int	`two words` 
+    // c33
+,} // c35
+")).
+Eval vm_compute in ("<<<M61>>>" ++ check (runes_of_ascii "MetaData trueish // " ++ [128512]%N ++ runes_of_ascii " emoji
+{
+uint64
+Z9_	`u8 x,` // packet A { u8 x, }
+, zchar[ 3 ]	tag , } root packet tag// " ++ [128512]%N ++ runes_of_ascii " emoji
+{Packet	chars ,  }	packet trueish
+    { @lengthOf(
+    roots )string repeatCount , @calculatedFrom( ""1""
+) @leftPad// 50% %s
+(	'\x00' ) @tag(3
+)
+    int16 stringy ,
+    // `tick` ""quote"" 'q'
+    @rightPad
+( '0'
+    ) @rightPad('\x00')
+//
+// c
+@lengthOf(
+    x ) repeat	trueish pack
+    `a\`, len // " ++ [128512]%N ++ runes_of_ascii " emoji
+, @tag( 3 ) char packetx , } // `tick` ""quote"" 'q'
+packet u
+    {
+u64 options1 //	t
+, }	options { }
+")).
+Eval vm_compute in ("<<<M245>>>" ++ check (runes_of_ascii "root packet x { } options
+    {	msg_type
+=	false //	t
+; Z9_ =	0 ;
+    // c
+    }
+MetaData metadata{
+} packet	_x{ @tag(65535) match BodyLength
+as metadata
+    {
+10
+:trueish , [// `tick` ""quote"" 'q'
+""{,}"" ] : u// @lengthOf(
+,
+    }
+    , @calculatedFrom(""CRC32""
+)@rightPad( '0' ) lengthOf string_
+    ,// 50% %s
+@lengthOf( matchKey
+) Packet
+    { lengthOf@lengthOf( uint8x
+    ) `` ,
+i8i8 { repeat msg_type lengthOf,
+    // c
+    matchKey	,},
+    o @lengthOf( lengthOf ) , }, }
+//	t
+")).
+Eval vm_compute in ("<<<M1871>>>" ++ check (runes_of_ascii "
+MetaData 
+o  //
+{
+    MetaDataX	As 
+`crlf
+line` ,
+    string_
+	T
 
     ,
     zchar[
-    // packet A { u8 x, }
-      7  // a // b
-	]
-    BodyLength 
-@lengthOf(  string_  // a // b
 
-)	,
-
-    } 
-packet u128  {	x  `// not a comment`,
-}//
-
-packet
-
-x { 
-A`doc`
-
-    ,
-	Packet 
-@calculatedFrom(	// `tick` ""quote"" 'q'
-    ""\" ++ [233]%N ++ runes_of_ascii """
-    )
-
-`say ""hi""` , repeat  string
-asx 
-, @lengthOf(
-
-MetaDataX
-
-)
-	repeat char[4294967296  //
-		] 
-string_	`u8 x,`
-
-,
-@lengthOf( charz ) char[
-
-    0123456789
-	]
-	f32a
-    `say ""hi""`
-,  }
-
-")).
-Eval vm_compute in ("<<<M258>>>" ++ check (runes_of_ascii "packet
-Packet { @rightPad (  )
-match calculatedFrom
-    as zchar {""abc"" : leftPad ,  0123456789:
-    BodyLength , ""// no comment"":	Packet } , @tag(
-    0123456789
-)
-    zchar[ 0]
-    _x @lengthOf(
-u128 ) ,
-    @calculatedFrom( ""`tick`""
-)	options1 {
-// a // b
-// trailing space 
-zchar @calculatedFrom(""CRC32""
-) ,
-i64
-A
-@lengthOf(string_ )// " ++ [128512]%N ++ runes_of_ascii " emoji
-`two words` , float
-// @lengthOf(
-// trailing space 
-@calculatedFrom(
-// c
-// trailing space 
-""{,}"" ) `crlf
-line` ,
-repeat char[ 00/// triple
+    1
 ]
-_x , } ,
-    @leftPad( ' '
-) char[	255
-] options1 ,  @tag( 0123456789
-)repeat MetaDataX { //
-BodyLength { As , } , o `say ""hi""`
-    ,
-match asx //x
-as string_{ ""a	b"" :Logon ,// `tick` ""quote"" 'q'
-}, } ,	@rightPad	( // `tick` ""quote"" 'q'
-) match  o as T//
-{ 007
-    :
-    body	, 10 :o 10 : i8i8	, } , @rightPad ( '0'	)@rightPad (  '\x00' )
-    @leftPad ( '\x00' ) int8 tag `" ++ [28040; 24687; 31867; 22411]%N ++ runes_of_ascii "`
-, i64 falsey, @lengthOf( u8x )
-    repeat Packet	{ char[] x_y_z , repeat
-    f32 Packet ,crc @lengthOf( Foo )// a // b
-, } // 50% %s
-,//	t
-@calculatedFrom(	""{,}"" )
-    // a // b
-    @lengthOf(metadata ) @lengthOf( i8i8  ) // `tick` ""quote"" 'q'
-int64	options1 @calculatedFrom(""CRC32"" /// triple
-)	`say ""hi""`
-    ,
-    }
-")).
-Eval vm_compute in ("<<<M1746>>>" ++ check (runes_of_ascii "packet rootA {
-    // a // b
-    // " ++ [128512]%N ++ runes_of_ascii " emoji
-    @tag(00)
-    match i8i8 as f32a {
-        0 : u8x,
-        [""a\\""] : BodyLength,
-        [""{,}""] : body,
-        4294967296 : options1,
-        // c
-        ""CRC32"" : A,
-    },
-    Logon @lengthOf(T),
-    @lengthOf(stringy)
-    char[0123456789] zchar,
-    zchar[1] i8i8 `it's`,
-    @calculatedFrom(""1"")
-    // `tick` ""quote"" 'q'
-    repeat zchar[42] A `u8 x,`,
-    i16 A @calculatedFrom(""packet""),/// triple
-    @lengthOf(MetaDataX)
-    match falsey as repeatCount {
-        0123456789 : T,
-    },
-    @leftPad( // " ++ [27880; 37322]%N ++ runes_of_ascii "
-    '\x00' )
-    @rightPad( '0'
-    )
-    @tag(0)
-    repeat len {
-        trueish rootA `" ++ [28040; 24687; 31867; 22411]%N ++ runes_of_ascii "`,
-        char[7] repeatCount @calculatedFrom(""// no comment""),
-        string_ @calculatedFrom(""it's""),
-    },
-    repeat Header `say ""hi""`,
-    //x
-    //x
-    match packetx as Packet {
-        [""`tick`""] : asx,
-        7 : asx,
-        [""a\\""] : float,
-        ""packet"" : lengthOf,
-        ""x y"" : len,
-    },
-}")).
-Eval vm_compute in ("<<<M1349>>>" ++ check (runes_of_ascii "options {
-    LittleEndian = false;
-    FixedStringPadChar = ' ';
-}
-packet Fill {
-    InFlags6 {
-        repeat u64 count,
-    },
-    char[8] price,
-    repeat char[2] lastPx,
-    char[] count,
-}
-packet Quote {
-    char[] Qty,
-    int32 sym,
-    zchar[9] Flags,
-    int8 tag7,
-    char[7] count,
-}
-packet Cancel {
-    string Acct,
-    @rightPad('\x00') char[2] Note,
-    zchar[5] Side2,
-}
-packet Trade {
-    repeat Quote,
-    Fill,
-    repeat i64 Side2,
-    uint16 Tail,
-    zchar[7] OrderId,
-}
-root packet Party {
-    repeat InLastpx79 {
-        char[12] Px,
-        int8 Tail,
-    },
-    f32 count,
-    repeat u8 Note,
-    Trade,
-    f64 venue,
-    @rightPad('\x00') char[11] tag7,
-    u16 Px,
-    u32 Side2 @lengthOf(Body),
-    match Px as Body {
-        [48, 188] : Fill,
-        190 : Trade,
-        160 : Quote,
-        85 : Cancel,
-    },
-}
-")).
-Eval vm_compute in ("<<<M1326>>>" ++ check (runes_of_ascii "packet MDSnapshotZZ // c1a
-  // c1b
-{ // c2
-u8
-    // c3
-a , // c5a
-  // c5b
-} // c6a
-  // c6b
-packet OrderACK
-    // c8
-{ // c9a
-  // c9b
-u16 // c10a
-  // c10b
-b
-    // c11
-, // c12a
-  // c12b
-} // c13a
-  // c13b
-packet HTTPServerInfo // c15
-{ string
-    // c17
-s // c18a
-  // c18b
-,
-    // c19
-} root packet // c22
-FIXMsg // c23
-{ // c24a
-  // c24b
-u8 // c25
-KType
-    // c26
-, // c27
-MDSnapshotZZ // c28
-, // c29a
-  // c29b
-repeat // c30a
-  // c30b
-OrderACK // c31a
-  // c31b
-, // c32
-match // c33a
-  // c33b
-KType // c34a
-  // c34b
-as Body // c36
-{ // c37a
-  // c37b
-1
-    // c38
-: // c39
-HTTPServerInfo
-    // c40
-,
-    // c41
-2
-    // c42
-: // c43
-OrderACK
-    // c44
-, }
-    // c46
-, // c47a
-  // c47b
-} // c48
-")).
-Eval vm_compute in ("<<<M78>>>" ++ check (runes_of_ascii "root packet
-crc{	MetaDataX @calculatedFrom(
-// " ++ [128512]%N ++ runes_of_ascii " emoji
-//
-""// no comment"" ), // " ++ [27880; 37322]%N ++ runes_of_ascii "
-@calculatedFrom("""" )
-    // trailing space 
-    len metadata// @lengthOf(
-,@tag( 0 )
-// `tick` ""quote"" 'q'
-// c
-char As `doc`
-,@lengthOf(// `tick` ""quote"" 'q'
-crc
-// c
-//	t
-)repeat
-    leftPad
-    // a // b
-    { repeat chars
-    u8x`// not a comment` ,
-uint8x{ repeat char[
-    10 ] crc,options1 ,},
-// " ++ [128512]%N ++ runes_of_ascii " emoji
-// trailing space 
-match  leftPad
-    as
-Packet{ ""// no comment"": chars , [42 ,
-0 ]
-: a1
-    // c
-    ""\n"" : len // `tick` ""quote"" 'q'
-,3 : // " ++ [128512]%N ++ runes_of_ascii " emoji
-Header} , char[]
-options1
-@lengthOf( //	t
-f32a ) `
-` ,}
-    , // a // b
-}
-")).
-Eval vm_compute in ("<<<M255>>>" ++ check (runes_of_ascii "packet
-msg_type { @lengthOf(
-trueish
-) @calculatedFrom( //	t
-""packet""
-    ) @rightPad
-( ) trueish
-chars
-    // c
-    ,	}
-root
-packet i64_
-    { } packet	charz
-{// " ++ [128512]%N ++ runes_of_ascii " emoji
-repeat float64 // @lengthOf(
-u8x
-`{ , }`
-    , roots @lengthOf( BodyLength )
-    ``
-,	repeat string
-Header
-    //x
-    , Z9_ @lengthOf(
-    A ) ,
-    @rightPad () repeat len
-`" ++ [233]%N ++ runes_of_ascii "`,
-    float64 Foo @lengthOf( Header  ) ,repeat char[
-0 ] charz// c
-`say ""hi""`, string a1 , @leftPad
-    (
-    '0') metadata
-    { zchar[ 42 ]  i8i8
-    @lengthOf( lengthOf)
-,
-//x
-/// triple
-} ,
-} options	{ }
-")).
-Eval vm_compute in ("<<<M370>>>" ++ check (runes_of_ascii "// 50% %s
-packet crc
-{  char[65535	] Foo
-    `" ++ [233]%N ++ runes_of_ascii "` , calculatedFrom	Header, stringy MetaDataX, @lengthOf(
-    //
-    BodyLength
-    ) lengthOf  { f32 u `100% of %d`
-,T
-    @lengthOf(
-leftPad )	,f32
-    // 50% %s
-    f32a `it's`
-,
-    zchar[	255 ]crc , } ,Pad
-    @calculatedFrom( ""abc"" ) ,
-    @lengthOf(
-repeatCount  ) @rightPad ( ) @tag( 1// trailing space 
-) //	t
-char[
-7 ] MetaDataX
-@calculatedFrom(
-""\n"" ) ,	repeat uint64 pack,
-@calculatedFrom(
-""CRC32"") repeat x_y_z
-msg_type `say ""hi""` , }")).
-Eval vm_compute in ("<<<M58>>>" ++ check (runes_of_ascii "packet o { zchar[ 7 ] /// triple
-f32a@calculatedFrom( ""a\""b"")	, @lengthOf( pack
-)
-    options1 ,@calculatedFrom(""abc""
-)
-    Header , @lengthOf( Logon )zchar[4294967296
-    ] asx // packet A { u8 x, }
-@lengthOf(
-// a // b
-// packet A { u8 x, }
-u )
-`100% of %d`	, @leftPad (' ' // trailing space 
-)	@calculatedFrom( ""`tick`"" )
-uint16 x_y_z`doc` , @tag( 00 )zchar[ //	t
-1 ] // c
-u,@calculatedFrom(""a\""b"" ) //
-u8x uint8x,
-char[1 ]
-metadata , }
-")).
-Eval vm_compute in ("<<<M1282>>>" ++ check (runes_of_ascii "options {
-    // c1
-LittleEndian = true ; } // c6
-packet // c7a
-  // c7b
-B
-    // c8
-{
-    // c9
-u8 // c10a
-  // c10b
-a // c11a
-  // c11b
-, // c12
-string s // c14a
-  // c14b
-, // c15a
-  // c15b
-}
-    // c16
-root packet // c18a
-  // c18b
-P
-    // c19
-{ // c20
-u16
-    // c21
-L // c22a
-  // c22b
-@lengthOf(
-    // c23
-B // c24
-)
-    // c25
-, // c26a
-  // c26b
-B
-    // c27
-, // c28
-u8 t ,
-    // c31
-} // c32a
-  // c32b
-")).
-Eval vm_compute in ("<<<M18>>>" ++ check (runes_of_ascii "
-packet
-    tag  {@tag( 00 ) match x_y_z as Packet{[3
-    ]:packetx , [// " ++ [128512]%N ++ runes_of_ascii " emoji
-""{,}"" ]
-// " ++ [27880; 37322]%N ++ runes_of_ascii "
-// 50% %s
-:
-BodyLength ,
-//x
-//
-00
-    : i8i8 , 255  :	asx
-    //
-    , },} packet
-Packet { @calculatedFrom(
-    // " ++ [27880; 37322]%N ++ runes_of_ascii "
-    """ ++ [233]%N ++ runes_of_ascii "t" ++ [233]%N ++ runes_of_ascii """ // 50% %s
-)	match i8i8
-as
-    charz
-// @lengthOf(
-// " ++ [128512]%N ++ runes_of_ascii " emoji
-{ 3
-: f32a ""a\\"" // " ++ [27880; 37322]%N ++ runes_of_ascii "
-: len
-,	} , @tag(	10 ) @lengthOf( charz	) int , repeat	string Foo ,}")).
-Eval vm_compute in ("<<<M82>>>" ++ check (runes_of_ascii "packet stringy {  string
-    lengthOf  @calculatedFrom(""" ++ [128512]%N ++ runes_of_ascii """)
-, @lengthOf(MetaDataX) Logon
-{ string
-Pad`u8 x,` ,  } , // " ++ [128512]%N ++ runes_of_ascii " emoji
-@tag( 00	)
-@calculatedFrom(
-    """ ++ [28040; 24687]%N ++ runes_of_ascii """ )
-    repeat uint8 asx , @leftPad( '0'  ) @tag( 00 // c
-)
-    zchar[0 ]trueish `u8 x,` , Header @lengthOf(repeatCount )
-    ,} packet
-u128 {  } MetaData// trailing space 
-charz
-{ }")).
-Eval vm_compute in ("<<<M1396>>>" ++ check (runes_of_ascii "options {
-	LittleEndian
-= true ; 
-} 
-packet
-    Sub { u8 a
+    Header, 	 //	t
+}	packet packetx{// " ++ [128512]%N ++ runes_of_ascii " emoji
+		repeat  //	t
+  char[ 10
+    // @lengthOf(
+	//
+	] crc `a\`
 
-    ,	@calculatedFrom(  ""CRC16""
-
-    )  uint64
-    SubSum  , 
-}
-    root
-	packet Frame  {
-	u16 MsgType
-    , u16
-BodyLen @lengthOf(
-	Body 
-)
-	,	Sub Body,string
-    note 
-,
-@calculatedFrom(""CRC16"" 
-)  uint64
-
-    Checksum,	u8
-
-    tail,
-}
-")).
-Eval vm_compute in ("<<<M272>>>" ++ check (runes_of_ascii "// c
-packet BodyLength
-{ @tag(
-    42) Header tag
-    `u8 x,`
-, } options { } packet string_
-{	float32
-rootA , uint8 MetaDataX `crlf
-line`,
-charz
-    // " ++ [128512]%N ++ runes_of_ascii " emoji
-    ,  @tag(  4294967296) @rightPad( '\x00' )	@tag(7	)
-    // c
-    u32 u128 //x
-@calculatedFrom(""\" ++ [233]%N ++ runes_of_ascii """ ) ,
-}")).
-Eval vm_compute in ("<<<M6>>>" ++ check (runes_of_ascii "packet
-rootA
-{ match	BodyLength as A
-{ 42: leftPad ,	1: u8x, [ 10 ,
-    //
-    """ ++ [128512]%N ++ runes_of_ascii """ ] : // trailing space 
-i8i8
-    7// " ++ [128512]%N ++ runes_of_ascii " emoji
-: u8x , 007: trueish,
-    // c
-    }, o uint8x , repeat
+, @tag(42	) repeat char[]
+	asx
+    `// not a comment`
+, 
 zchar[
-7] //x
-pack ,
-string x_y_z@lengthOf(
-charz	)
-    `
-` , } // c")).
-Eval vm_compute in ("<<<M390>>>" ++ check (runes_of_ascii "4294967296
-    asx { @calculatedFrom(
-""""  ) @tag( 255 )repeat
-// packet A { u8 x, }
-// trailing space 
-int16 u8x
-,
-@tag(
-    //
-    007 )
-    @tag( 0
-    /// triple
-    ) @tag( 1) u
-    @lengthOf( T ),
-// `tick` ""quote"" 'q'
-//x
-} // " ++ [128512]%N ++ runes_of_ascii " emoji")).
-Eval vm_compute in ("<<<M423>>>" ++ check (runes_of_ascii "packet
-    asx { @calculatedFrom(
-""""  ) @tag( ) 255 repeat
-// packet A { u8 x, }
-// trailing space 
-int16 u8x
-,
-@tag(
-    //
-    007 )
-    @tag( 0
-    /// triple
-    ) @tag( 1) u
-    @lengthOf( T ),
-// `tick` ""quote"" 'q'
-//x
-} // " ++ [128512]%N ++ runes_of_ascii " emoji")).
-Eval vm_compute in ("<<<M463>>>" ++ check (runes_of_ascii "packet
-    asx { @calculatedFrom(
-""""  ) @tag( 255 )repeat
-// packet A { u8 x, }
-// trailing space 
-int16 u8x
-,
-@tag(
-    //
-    007 @tag(
-    ) 0
-    /// triple
-    ) @tag( 1) u
-    @lengthOf( T ),
-// `tick` ""quote"" 'q'
-//x
-} // " ++ [128512]%N ++ runes_of_ascii " emoji")).
-Eval vm_compute in ("<<<M516>>>" ++ check (runes_of_ascii "packet
-    asx { @calculatedFrom(
-""""  ) @tag( 255 )repeat
-// packet A { u8 x, }
-// trailing space 
-int16 u8x
-,
-@tag(
-    //
-    007 )
-    @tag( 0
-    /// triple
-    ) @tag( 1) u
-    @lengthOf( T )
-// `tick` ""quote"" 'q'
-//x
-} // " ++ [128512]%N ++ runes_of_ascii " emoji")).
-Eval vm_compute in ("<<<M323>>>" ++ check (runes_of_ascii "
-root
-packet int{ @tag( 0) @tag( 007 )
-@tag( 255
-) match i8i8 as
-//	t
-// 50% %s
-_x { ""\" ++ [233]%N ++ runes_of_ascii """ : //
-i64_ 42 :
-    asx , 0123456789:Logon 65535 // `tick` ""quote"" 'q'
-:  calculatedFrom ,""" ++ [233]%N ++ runes_of_ascii "t" ++ [233]%N ++ runes_of_ascii """ // c
-:u
+// a // b
+	// " ++ [128512]%N ++ runes_of_ascii " emoji
+    	007
+]
+
+len @lengthOf(
+u )	`a\`
+	,	@leftPad
+    ( '\x00' ) @tag(
+
+    3 )
+
+    @calculatedFrom(  ""a\""b""
+
+)
+
+char[  //x
+10
+] As`
+` ,  } ")).
+Eval vm_compute in ("<<<M1376>>>" ++ check (runes_of_ascii "options {
+    ArrayPrefixLenType = u64;
+    FixedStringPadFromLeft = true;
+    FixedStringPadChar = '0';
+}
+packet Order {
+}
+root packet Leg {
+    char[] Ref,
+    repeat Order,
+    f32 Acct,
+    @leftPad('0') char[10] venue,
+    @rightPad('0') char[3] seqNo,
+    repeat u64 Px,
+    u8 Flags,
+    u32 lastPx @lengthOf(Body),
+    match Flags as Body {
+        185 : Order,
     },
-    /// triple
-    }
+    u16 sym @calculatedFrom(""CRC32""),
+}
 ")).
-Eval vm_compute in ("<<<M1925>>>" ++ check (runes_of_ascii "  root
+Eval vm_compute in ("<<<M1411>>>" ++ check (runes_of_ascii "// top
+    options // c0
+  {	// c1a
+      // c1b
+  }  
+      // c2
+
+	options  // c3
+  { 
+// c4
+  MetaDataX
+        // c5
+
+	=// c6a
+  // c6b
+  char// c7a
+    // c7b
+  ;
+    }	// c9
+MetaData	// c10
+  	Pad // c11
+
+{	// c12
+i8	metadata  // c14a
+    // c14b
+	, // c15
+      string  // c16a
+// c16b
+
+stringy  ,
+int8	// c19a
+
+// c19b
+  	As// c20
+	`{ , }`
+        // c21
+	,
+
+}
+
+")).
+Eval vm_compute in ("<<<M267>>>" ++ check (runes_of_ascii "// " ++ [128512]%N ++ runes_of_ascii " emoji
+packet  Header {metadata
+, T @calculatedFrom( ""// no comment""
+)
+    `100% of %d` , // " ++ [128512]%N ++ runes_of_ascii " emoji
+options1
+i64_ , } options
+{
+    /// triple
+    len =	' ' int = /// triple
+i64 tag
+=0123456789 calculatedFrom
+= // packet A { u8 x, }
+""\" ++ [233]%N ++ runes_of_ascii """
+} options
+{As  = false matchKey =""\n"" ; }options {
+pack
+= ""a\\"" ; float = """ ++ [28040; 24687]%N ++ runes_of_ascii """ A =
+7 i8i8 =	42; }
+")).
+Eval vm_compute in ("<<<M1435>>>" ++ check (runes_of_ascii "packet leftPad {
+    @tag(10)
+    @tag(007)
+    @lengthOf(a1)
+    repeat metadata,
+}
+
+options {
+    // " ++ [128512]%N ++ runes_of_ascii " emoji
+    lengthOf = """ ++ [128512]%N ++ runes_of_ascii """;
+}
+
+packet T {
+    A {
+        tag @calculatedFrom(""abc""),
+    },
+    @lengthOf(matchKey)
+    string Header @lengthOf(metadata),
+    leftPad @calculatedFrom(""a\""b"") `tab	here`,
+}")).
+Eval vm_compute in ("<<<M94>>>" ++ check (runes_of_ascii "packet BodyLength{ }
+    MetaData Z9_{ // c
+Z9_ _x
+    , }	packet
+float
+{@tag(
+    42 )
+@calculatedFrom(// `tick` ""quote"" 'q'
+""// no comment"")
+    char[
+    42
+]	packetx
+    `it's`
+, } MetaData body{  uint16 zchar `" ++ [233]%N ++ runes_of_ascii "` // " ++ [27880; 37322]%N ++ runes_of_ascii "
+, i32 Pad`" ++ [28040; 24687; 31867; 22411]%N ++ runes_of_ascii "`
+,i8 Header
+,  u16 u128 , i32 u, }
+")).
+Eval vm_compute in ("<<<M144>>>" ++ check (runes_of_ascii "packet leftPad { @leftPad
+(
+' ' ) @calculatedFrom( """ ++ [28040; 24687]%N ++ runes_of_ascii """	) zchar[
+    4294967296 ]string_, metadata
+    { tag  @lengthOf( body ) `two words` ,} ,@tag( 255 )
+int16 asx @calculatedFrom( ""a	b""
+    )
+// `tick` ""quote"" 'q'
+// `tick` ""quote"" 'q'
+`{ , }`// c
+, }
+")).
+Eval vm_compute in ("<<<M424>>>" ++ check (runes_of_ascii "packet
+    asx { @calculatedFrom(
+""""  ) @tag( options )repeat
+// packet A { u8 x, }
+// trailing space 
+int16 u8x
+,
+@tag(
+    //
+    007 )
+    @tag( 0
+    /// triple
+    ) @tag( 1) u
+    @lengthOf( T ),
+// `tick` ""quote"" 'q'
+//x
+} // " ++ [128512]%N ++ runes_of_ascii " emoji")).
+Eval vm_compute in ("<<<M535>>>" ++ check (runes_of_ascii "packet
+    asx { @calculatedFrom(
+""""  ) @tag( 2@55 )repeat
+// packet A { u8 x, }
+// trailing space 
+int16 u8x
+,
+@tag(
+    //
+    007 )
+    @tag( 0
+    /// triple
+    ) @tag( 1) u
+    @lengthOf( T ),
+// `tick` ""quote"" 'q'
+//x
+} // " ++ [128512]%N ++ runes_of_ascii " emoji")).
+Eval vm_compute in ("<<<M488>>>" ++ check (runes_of_ascii "packet
+    asx { @calculatedFrom(
+""""  ) @tag( 255 )repeat
+// packet A { u8 x, }
+// trailing space 
+int16 u8x
+,
+@tag(
+    //
+    007 )
+    @tag( 0
+    /// triple
+    ) @tag( )1 u
+    @lengthOf( T ),
+// `tick` ""quote"" 'q'
+//x
+} // " ++ [128512]%N ++ runes_of_ascii " emoji")).
+Eval vm_compute in ("<<<M391>>>" ++ check (runes_of_ascii "packet
+     { @calculatedFrom(
+""""  ) @tag( 255 )repeat
+// packet A { u8 x, }
+// trailing space 
+int16 u8x
+,
+@tag(
+    //
+    007 )
+    @tag( 0
+    /// triple
+    ) @tag( 1) u
+    @lengthOf( T ),
+// `tick` ""quote"" 'q'
+//x
+} // " ++ [128512]%N ++ runes_of_ascii " emoji")).
+Eval vm_compute in ("<<<M126>>>" ++ check (runes_of_ascii "packet u{ } packet charz { char[
+//
+// " ++ [128512]%N ++ runes_of_ascii " emoji
+255// " ++ [128512]%N ++ runes_of_ascii " emoji
+]options1
+,@calculatedFrom( """") zchar[ //x
+00 ] leftPad
+, char[]  A`it's` ,} options{ i8i8 = '\x00' ;u128
+= ' ' ; options1=42; charz
+    =
+""\n""
+int= true ;}
+")).
+Eval vm_compute in ("<<<M515>>>" ++ check (runes_of_ascii "packet
+    asx { @calculatedFrom(
+""""  ) @tag( 255 )repeat
+// packet A { u8 x, }
+// trailing space 
+int16 u8x
+,
+@tag(
+    //
+    007 )
+    @tag( 0
+    /// triple
+    ) @tag( 1) u
+    @lengthOf( T")).
+Eval vm_compute in ("<<<M1787>>>" ++ check (runes_of_ascii "MetaData lengthOf {
+    chars asx,
+    T Header `100% of %d`,
+    int32 x_y_z `two words`,
+    zchar[0123456789] Header ``,
+    len x_y_z `
+    `,// c
+}// " ++ [27880; 37322]%N ++ runes_of_ascii "
+
+packet BodyLength {
+}")).
+Eval vm_compute in ("<<<M1785>>>" ++ check (runes_of_ascii "options {
+	Foo = true
+    len
+	=
+'0'
+
+    ;metadata	= 
+u32;	repeatCount =  42 } 
+MetaData	lengthOf
+    {
+
+}
+options{ options1	= zchar[
+
+    0123456789
+
+    ]
+} // " ++ [27880; 37322]%N ++ runes_of_ascii "
+")).
+Eval vm_compute in ("<<<M572>>>" ++ check (runes_of_ascii "MetaData u
+    { } MetaData o o
+{ float uint8x
+`100% of %d` ,repeatCount u8x, string_ leftPad
+, i32
+    Foo , int64 x `two words` , calculatedFrom
+stringy `a\` ,
+}
+")).
+Eval vm_compute in ("<<<M549>>>" ++ check (runes_of_ascii "u MetaData
+    { } MetaData o
+{ float uint8x
+`100% of %d` ,repeatCount u8x, string_ leftPad
+, i32
+    Foo , int64 x `two words` , calculatedFrom
+stringy `a\` ,
+}
+")).
+Eval vm_compute in ("<<<M683>>>" ++ check (runes_of_ascii "MetaData u
+    { } MetaData o
+{ float uint8x
+`100% of %d` ,repeatCount u8x, string_ leftPad
+, i32
+    Foo , int64 x `two words` , calculatedFrom
+stringy `a\` }
+,
+")).
+Eval vm_compute in ("<<<M569>>>" ++ check (runes_of_ascii "MetaData u
+    { } char o
+{ float uint8x
+`100% of %d` ,repeatCount u8x, string_ leftPad
+, i32
+    Foo , int64 x `two words` , calculatedFrom
+stringy `a\` ,
+}
+")).
+Eval vm_compute in ("<<<M680>>>" ++ check (runes_of_ascii "MetaData u
+    { } MetaData o
+{ float uint8x
+`100% of %d` ,repeatCount u8x, string_ leftPad
+, i32
+    Foo , int64 x `two words` , calculatedFrom
+stringy")).
+Eval vm_compute in ("<<<M1283>>>" ++ check (runes_of_ascii "
+
+  options
+{
+
+    LittleEndian =
+true; }
+packet 
+B 
+{ u8
+    a 
+,  string s,
+    } root
 packet
-body { 
-string 
-chars 
-`" ++ [233]%N ++ runes_of_ascii "`
+	P
+	{ u16
+L@lengthOf(
+B )
+,
 
-    , repeat
-	uint8x
-, match
-    uint8x  as
-x  // `tick` ""quote"" 'q'
+B
 
-{007
-    //	t
-  	:
-	// c
-	// @lengthOf(
-  calculatedFrom
-	, },
-    string_  falsey	`
+,	u8
+
+t, 
+}
+")).
+Eval vm_compute in ("<<<M8>>>" ++ check (runes_of_ascii "MetaData roots //
+{ /// triple
+char[65535 ] i64_,	char[ 0 ] int
+`a\` ,
+uint8 MetaDataX , } packet
+asx{
+char[ 007 ] len
+    `
 `
 ,
 }
 ")).
-Eval vm_compute in ("<<<M38>>>" ++ check (runes_of_ascii "packet Logon {	@calculatedFrom(""{,}"") repeat	int64 Packet	, @tag( 42 )char[] MetaDataX`doc`, } MetaData Packet	{string msg_type , Logon calculatedFrom,f32a
-    matchKey ,zchar[	0	] _x ,  }")).
-Eval vm_compute in ("<<<M720>>>" ++ check (runes_of_ascii "packet
-crc
-{repeat  Foo A  `u8 x,` ,	@lengthOf( uint8x ) string string
-matchKey @lengthOf( stringy ) `a\`
-,
-    // c
-    }
-MetaData chars{
-leftPad
-    //	t
-    crc
-`" ++ [233]%N ++ runes_of_ascii "`
-,}")).
-Eval vm_compute in ("<<<M1751>>>" ++ check (runes_of_ascii "
-packet  A
-    {u16
-    len @lengthOf(
-
-    body
-) 
-`100% of %s %d %v` 
-, 
-u32
-crc
-
-    @calculatedFrom(  ""CRC32"" )
-
-    `100% of %s %d %v`
-,
-	string body  ,
-}
-
-")).
-Eval vm_compute in ("<<<M702>>>" ++ check (runes_of_ascii "MetaData u
+Eval vm_compute in ("<<<M665>>>" ++ check (runes_of_ascii "MetaData u
     { } MetaData o
 { float uint8x
 `100% of %d` ,repeatCount u8x, string_ leftPad
 , i32
-    Foo , int64 x `two words` , calculatedFrom
-< stringy `a\` ,
-}
-")).
-Eval vm_compute in ("<<<M618>>>" ++ check (runes_of_ascii "MetaData u
-    { } MetaData o
-{ float uint8x
-`100% of %d` ,repeatCount u8x, leftPad string_
-, i32
-    Foo , int64 x `two words` , calculatedFrom
-stringy `a\` ,
-}
-")).
-Eval vm_compute in ("<<<M681>>>" ++ check (runes_of_ascii "MetaData u
-    { } MetaData o
-{ float uint8x
-`100% of %d` ,repeatCount u8x, string_ leftPad
-, i32
-    Foo , int64 x `two words` , calculatedFrom
-stringy `a\` 
-}
-")).
-Eval vm_compute in ("<<<M616>>>" ++ check (runes_of_ascii "MetaData u
-    { } MetaData o
-{ float uint8x
-`100% of %d` ,repeatCount u8x,  leftPad
-, i32
-    Foo , int64 x `two words` , calculatedFrom
-stringy `a\` ,
-}
-")).
-Eval vm_compute in ("<<<M1310>>>" ++ check (runes_of_ascii "packet A {
-    u8 a,
-}
-packet B {
-    u16 b,
-}
-root packet P {
-    u8 K,
-    match K as M {
-        [1, 2] : A,
-        3 : B,
-        7 : A,
-    },
-}
-")).
-Eval vm_compute in ("<<<M166>>>" ++ check (runes_of_ascii "  options {Packet =true msg_type
-=false // 50% %s
-Logon// @lengthOf(
-=
-true
-    packetx
-//
-// `tick` ""quote"" 'q'
-=
-""abc"" ;
-    pack= ' '}
-
-")).
-Eval vm_compute in ("<<<M208>>>" ++ check (runes_of_ascii "MetaData uint8x{char msg_type `two words`, char[3 ] chars `say ""hi""`, zchar[
-007]
-zchar	,
-    // " ++ [128512]%N ++ runes_of_ascii " emoji
-    } // `tick` ""quote"" 'q'")).
-Eval vm_compute in ("<<<M1670>>>" ++ check (runes_of_ascii "packet
-
-A { 
-u8 
-a, }packet B
+    Foo , int64 x `two words`")).
+Eval vm_compute in ("<<<M1942>>>" ++ check (runes_of_ascii "
+options 
 {
-u16
+	T
+    =42
 
-b
-,
-    }
-root	packet	P 
-{
-	u8
-K,	match	K
-as
-    M{
-1
-:
-	A
-,1
+    packetx 
+= true  //	t
+	;
 
-    :B
-	,}
-,  }
+    x_y_z= char[]
+    ;trueish	// trailing space 
 
+=	u16	}
 ")).
-Eval vm_compute in ("<<<M1814>>>" ++ check (runes_of_ascii "
+Eval vm_compute in ("<<<M1209>>>" ++ check (runes_of_ascii "options { } options // c
+{ MetaDataX = char ; } MetaData Pad { i8 metadata , string stringy , int8 As `{ , }` , }")).
+Eval vm_compute in ("<<<M1241>>>" ++ check (runes_of_ascii "options { } options { MetaDataX = char ; } MetaData Pad { i8 metadata , string stringy , int8 // c
+As `{ , }` , }")).
+Eval vm_compute in ("<<<M176>>>" ++ check (runes_of_ascii "packet
+    _x { @lengthOf( packetx
+) _x @lengthOf(// c
+f32a), float64 Header @calculatedFrom( ""it's"" ) , }")).
+Eval vm_compute in ("<<<M1737>>>" ++ check (runes_of_ascii "  packet 
+A
+{
+    match k as  n
 
-  packet
-A{  Inner
     {
-match
 
-    k
-
-    as
-
-n{[
-1,	22, 
-007
-,
-	4 ,5
-,
-	66
-	] 
-: 
-B ,
-    }
-    ,  }	,
+[ ""a"",
+22	,
+""c c""
+    , 4
+    ,
+""e""
+    ]
+	:
+B 2
+: C } ,	}")).
+Eval vm_compute in ("<<<M1698>>>" ++ check (runes_of_ascii "MetaData matchKey {
+    i64 float `crlf
+        line`,//	t
+    leftPad asx,
+    uint8x leftPad,
 }")).
-Eval vm_compute in ("<<<M1218>>>" ++ check (runes_of_ascii "options { } options { MetaDataX = char
-// c
-; } MetaData Pad { i8 metadata , string stringy , int8 As `{ , }` , }")).
-Eval vm_compute in ("<<<M109>>>" ++ check (runes_of_ascii "
-options
-{
-charz  = ""a\\""
-    // trailing space 
-    rootA
-=""packet"" ; x= ""a	b"" ;
-    // " ++ [27880; 37322]%N ++ runes_of_ascii "
-    rootA =
-string}")).
-Eval vm_compute in ("<<<M1898>>>" ++ check (runes_of_ascii "// `tick` ""quote"" 'q'
-packet
-	o {} options{ }	MetaData
-    trueish{
-    u64
-repeatCount `100% of %d` ,	}
+Eval vm_compute in ("<<<M1869>>>" ++ check (runes_of_ascii "  packet
+
+    A
+{ Inner{u8
+
+    x  `a
+b` , 
+Deep
+{ u8
+y
+
+`a
+b`
+    ,
+	}  ,}
+    ,
+	}
 
 ")).
-Eval vm_compute in ("<<<M893>>>" ++ check (runes_of_ascii "packet A {
+Eval vm_compute in ("<<<M854>>>" ++ check (runes_of_ascii "packet A {
   match k as n {
-    [1, ""bb"", 007, ""d"", 5, ""f"", 7, ""h"", 9, ""j"", 11] : B,
+    [1, ""bb"", 007, ""d"", 5, ""f"", 7, ""h""] : B,
     2 : C
   },
 }")).
-Eval vm_compute in ("<<<M880>>>" ++ check (runes_of_ascii "packet A {
-  match k as n {
-    [1, ""bb"", 007, ""d"", 5, ""f"", 7, ""h"", 9, ""j""] : B,
-    2 : C
-  },
-}")).
-Eval vm_compute in ("<<<M861>>>" ++ check (runes_of_ascii "packet A {
-  match k as n {
-    [""a"", ""bb"", 007, ""d"", ""e"", 66, ""g"", ""h""] : B
-    2 : C
-  },
-}")).
-Eval vm_compute in ("<<<M1592>>>" ++ check (runes_of_ascii "packet A {
-    match k as n {
-        [1, ""bb"", 007, ""d"", 5] : B,
-        2 : C,
-    },
-}")).
-Eval vm_compute in ("<<<M219>>>" ++ check (runes_of_ascii "packet u {Foo @lengthOf(
-    crc)`{ , }`
-//	t
-//x
-, @tag( /// triple
-007
-    ) o
-,
-}")).
-Eval vm_compute in ("<<<M828>>>" ++ check (runes_of_ascii "packet A {
-  match k as n {
-    [1, ""bb"", 007, ""d"", 5, ""f""] : B,
-    2 : C
-  },
-}")).
-Eval vm_compute in ("<<<M824>>>" ++ check (runes_of_ascii "packet A {
-  match k as n {
-    [1, 22, 007, 4, 5, 66] : B,
-    2 : C
-  },
-}")).
-Eval vm_compute in ("<<<M265>>>" ++ check (runes_of_ascii "// c
-packet options1
-{options1
-x
-, }
-    options
-{
-Logon = float32  } 	 ")).
-Eval vm_compute in ("<<<M1294>>>" ++ check (runes_of_ascii "root packet P {
-    u16 a,
-    u32 Sum @calculatedFrom(""CR\
-C32""),
+Eval vm_compute in ("<<<M1756>>>" ++ check (runes_of_ascii "options {
+    LittleEndian = true;
 }
+
+root packet P {
+    repeat char cs,
+    u8 x,
+}")).
+Eval vm_compute in ("<<<M114>>>" ++ check (runes_of_ascii "// `tick` ""quote"" 'q'
+options{
+chars  =
+65535	packetx =
+""packet""Z9_
+    = '0' ; }")).
+Eval vm_compute in ("<<<M34>>>" ++ check (runes_of_ascii "packet
+    u8x	{
+repeat
+    Foo  { repeat msg_type`it's`  ,	}	, }
+// " ++ [128512]%N ++ runes_of_ascii " emoji
 ")).
+Eval vm_compute in ("<<<M820>>>" ++ check (runes_of_ascii "packet A {
+  match k as n {
+    [1, 22, ""c c"", 4, 5] : B
+    2 : C
+  },
+}")).
+Eval vm_compute in ("<<<M796>>>" ++ check (runes_of_ascii "packet A {
+  match k as n {
+    [""a"", ""bb"", 007] : B
+    2 : C
+  },
+}")).
 Eval vm_compute in ("<<<M251>>>" ++ check (runes_of_ascii "
 root packet len{
     @calculatedFrom(  ""a\""b"" )
 i16 a1 ,
     }")).
-Eval vm_compute in ("<<<M1972>>>" ++ check (runes_of_ascii "packet chars {
-    char[007] float @calculatedFrom(""x y""),
-}")).
-Eval vm_compute in ("<<<M1848>>>" ++ check (runes_of_ascii "
-packet
-	_x {@tag(	10 ) 
-float32	roots
+Eval vm_compute in ("<<<M1839>>>" ++ check (runes_of_ascii "
+MetaData
+    M  { u8
 
-`u8 x,`
+    x
 
-,
+`a
+b` 
+, T  t  `a
+b`  , }
+")).
+Eval vm_compute in ("<<<M1856>>>" ++ check (runes_of_ascii "  root	packet
+	P
 
-}
+{repeat string
+ss ,repeat 
+u16 ns ,}
 
 ")).
-Eval vm_compute in ("<<<M979>>>" ++ check (runes_of_ascii "MetaData M {
-    u8 x `%%d%!`,
-    T t `%%d%!`,
+Eval vm_compute in ("<<<M1119>>>" ++ check (runes_of_ascii "// top
+MetaData // c0
+tag // c1
+{ // c2
+} // c3
+")).
+Eval vm_compute in ("<<<M1164>>>" ++ check (runes_of_ascii "// top
+packet // c0
+x { // c2
+}
+    // c3
+")).
+Eval vm_compute in ("<<<M1736>>>" ++ check (runes_of_ascii "
+
+  packet
+
+    A {u8	x
+	`a
+b`
+,	}
+")).
+Eval vm_compute in ("<<<M1192>>>" ++ check (runes_of_ascii "options { A = ""// no comment""
+// c
 }")).
-Eval vm_compute in ("<<<M955>>>" ++ check (runes_of_ascii "MetaData M {
-    u8 x `
-x`,
-    T t `
-x`,
-}")).
-Eval vm_compute in ("<<<M74>>>" ++ check (runes_of_ascii "packet
-// 50% %s
-//
-len { uint8x A , }")).
-Eval vm_compute in ("<<<M1187>>>" ++ check (runes_of_ascii "options { A // c
-= ""// no comment"" }")).
 Eval vm_compute in ("<<<M920>>>" ++ check (runes_of_ascii "root packet A {
     u8 x `a
 b`,
 }")).
-Eval vm_compute in ("<<<M1027>>>" ++ check (runes_of_ascii "packet A {
- u8 x `d" ++ [8202]%N ++ runes_of_ascii "`, // c" ++ [8202]%N ++ runes_of_ascii "
+Eval vm_compute in ("<<<M997>>>" ++ check (runes_of_ascii "packet A {
+ u8 x `d `, // c 
 }")).
-Eval vm_compute in ("<<<M951>>>" ++ check (runes_of_ascii "packet A {
-    u8 x `
-x`,
+Eval vm_compute in ("<<<M915>>>" ++ check (runes_of_ascii "packet A {
+    u8 x `a
+b`,
 }")).
-Eval vm_compute in ("<<<M364>>>" ++ check (runes_of_ascii "
-packet string_
-    { }")).
-Eval vm_compute in ("<<<M1129>>>" ++ check (runes_of_ascii "MetaData tag {
+Eval vm_compute in ("<<<M1152>>>" ++ check (runes_of_ascii "root packet a1 { }
 // c
+")).
+Eval vm_compute in ("<<<M1125>>>" ++ check (runes_of_ascii "MetaData
+// c
+tag { }")).
+Eval vm_compute in ("<<<M1026>>>" ++ check (runes_of_ascii "// c" ++ [8202]%N ++ runes_of_ascii "
+packet A {
 }")).
-Eval vm_compute in ("<<<M1030>>>" ++ check (runes_of_ascii "packet A {
-}
-// c" ++ [8232]%N)).
-Eval vm_compute in ("<<<M1013>>>" ++ check (runes_of_ascii "packet A {
-}// c" ++ [5760]%N)).
+Eval vm_compute in ("<<<M1003>>>" ++ check (runes_of_ascii "packet A {
+}// c" ++ [160]%N)).
 Eval vm_compute in ("<<<M766>>>" ++ check (runes_of_ascii "zchar[ , uint16")).
-Eval vm_compute in ("<<<M999>>>" ++ check (runes_of_ascii "// c" ++ [12288]%N)).
-Eval vm_compute in ("<<<M160>>>" ++ check (@nil rune)).
+Eval vm_compute in ("<<<M1079>>>" ++ check (runes_of_ascii "// c x")).
+Eval vm_compute in ("<<<M39>>>" ++ check (runes_of_ascii "
+")).
